@@ -170,6 +170,8 @@ typecomposite(struct type *t1, struct type *t2)
 {
 	/* XXX: implement 6.2.7 */
 	/* XXX: merge with typecompatible? */
+	if (t1->kind == TYPEARRAY && t1->incomplete && !t2->incomplete)
+		return t2;  /* 6.2.7p3: one type is an array of known size */
 	return t1;
 }
 
